@@ -10,6 +10,7 @@ of `Font.save` / `Font(path)` (`DefconModel/ConvSave.lean`).  Helper lemmas are 
 the one defcon uses, compared with Python's `re` on every run.
 -/
 import DefconModel.Lemmas.ConvSave
+import DefconModel.Lemmas.ConvSaveFail
 import DefconModel.Lemmas.Replace
 import DefconModel.Props.C18
 
@@ -156,6 +157,20 @@ theorem invariants_reachable (find : Finder) :
     (∀ m m' t ip, MemWF m → save find m t ip = some m' → MemWF m' ∧ BoundGlif1 m') :=
   ⟨fun d mp m wf hg h => read_wf d mp m wf hg h, fun m m' t ip wf h => save_wf find m m' t ip wf h⟩
 
+/-- MEMORY UNCHANGED BY A SAVE THAT FAILS AT THE FINAL REPLACE (a conversion in place or a save over an
+existing UFO whose new UFO cannot be moved onto the destination, M-Replace below): the getters return what
+they returned before, the font is bound to the UFO it was bound to and reports the format it reported, and
+the invariants hold on — so the statements of this section apply to whatever save comes next. -/
+theorem failed_save_memory_unchanged (find : Finder) (m m' : Mem) (t : Fmt) (wf : MemWF m) (hb : BoundGlif1 m)
+    (h : saveFailsAtReplace find m t = some m') :
+    observe m' = observe m ∧ m'.bound = m.bound ∧ m'.fmt = m.fmt ∧ m'.maps = m.maps ∧ MemWF m' ∧ BoundGlif1 m' := by
+  cases hc : observe m with
+  | none => unfold saveFailsAtReplace at h; simp [hc] at h
+  | some c =>
+    have := saveFailsAtReplace_some find m m' t c hc h
+    subst this
+    exact ⟨observe_preload_saveAs m c t wf hc, rfl, rfl, rfl, preload_wf m c t true wf hc, hb⟩
+
 /-- What makes that possible: a save below format 3 first reads every layer, image and data file
 that format cannot store (and a save-as reads every layer it writes), so nothing is left that
 would have to come from the old UFO. -/
@@ -225,6 +240,12 @@ example :
     (observe demoMem).map (fun c => (c.layers.length, c.images, c.data)) = some (2, [("i.png", 8)], [("a.txt", 9)]) := by
   decide
 
+/-- on the same font: a failed conversion to format 2 has read both layers, the image and the data
+file, and the font shows what it showed -/
+example : (saveFailsAtReplace featureHeader demoMem .f2).bind observe = observe demoMem ∧
+    ((saveFailsAtReplace featureHeader demoMem .f2).map (fun m => (m.images, m.data, m.bound == demoMem.bound))) =
+      some ([("i.png", some 8)], [("a.txt", some 9)], true) := by decide
+
 /-! ## 5. The destination until the save is done (shared with C18) -/
 
 /-- A conversion in place, and any save over an existing UFO, is written into a temporary UFO and
@@ -250,7 +271,7 @@ the move of the temporary UFO fails after an arbitrary part of it has arrived at
 UFO on disk reads as before — the one at the destination too: what arrived is removed and what was put
 aside is put back.  (An existing destination is what makes `Font.save` take this route at all.) -/
 theorem destination_intact_after_torn_move (w : SaveSteps.World) (p q : Nat) (part : SaveSteps.Ufo)
-    (ha : w.aside = none) (hex : (SaveSteps.lookup w.disk p).isSome = true) :
+    (hex : (SaveSteps.lookup w.disk p).isSome = true) :
     SaveSteps.lookup (SaveSteps.failTorn p w part).disk q = SaveSteps.lookup w.disk q := by
   obtain ⟨pre, hplan, h1, h2⟩ := DefconModel.Props.C18.plan_over_prefix w.font p
   obtain ⟨u, hu⟩ := Option.isSome_iff_exists.mp hex
